@@ -59,6 +59,8 @@ def _poly_stream(ctx, n):
                         continue
                     nn = len(c["xs"])
                     c["mode"] = mode
+                    if mode == "plot_fit":
+                        c["xrange"] = None          # Plot.fit forwards `xrange` to the drawn curve too and fails (reported)
                     c["yerr"] = None if ypat == "none" else (rng.randrange(1, 17) / 8.0 if ypat == "common"
                                                                 else [rng.randrange(1, 25) / 8.0 for _ in range(nn)])
                     if fc.well_posed_poly(c):
@@ -204,6 +206,8 @@ def correspondence(ctx):
 def check_poly_oracle(case, obs=None):
     """exact weighted least squares over the points with low <= x < high; parameters highest power first"""
     obs = obs or fc.run_case(case)
+    if case.get("malformed") in ("lo>hi", "badlen", "nonreal"):
+        return None if obs["exn"] is not None else "a fit request with an invalid x-range ({}) was accepted".format(case["malformed"])
     if obs["exn"] is not None:
         if case.get("malformed"):
             return None
@@ -240,6 +244,8 @@ def chi2_ref(model, params, xs, ys, ss):
 
 def check_curve_oracle(case, obs=None):
     obs = obs or fc.run_case(case)
+    if case.get("malformed") in ("lo>hi", "badlen", "nonreal"):
+        return None if obs["exn"] is not None else "a fit request with an invalid x-range ({}) was accepted".format(case["malformed"])
     if obs.get("exn_type") == "RuntimeError":
         return None
     if obs["exn"] is not None:
@@ -255,7 +261,15 @@ def check_curve_oracle(case, obs=None):
     has_yerr = any(e > 0 for e in ye)
     # the sigma that the property prescribes
     grad_tol = 1e-4      # above the convergence tolerance of the optimiser (ftol = xtol = 1e-8 on very uneven weights)
-    if not calls:
+    late = None
+    if has_xerr and len(calls) == 1:
+        # the effective variance never reached the optimiser: say what that does to the result (not a stationary point
+        # for the prescribed s_i, covariance for the wrong weights), with the slope of the returned curve
+        ss = [math.sqrt(sy ** 2 + (fc.ref_slope(model, params, x) * sx) ** 2) for x, sx, sy in zip(xs, xe, ye)]
+        grad_tol = 1e-3
+        late = ("x-uncertainties {} are present but curve_fit was called once, with sigma={}: the effective variance "
+                "sigma_y^2 + (f'(x_i) sigma_x)^2 never entered the fit".format(xe, calls[0]["sigma"]))
+    elif not calls:
         # no optimiser call was observed for this fit (a remembered result?): judge the returned parameters
         # against the sigma of the CURRENT data, with the slope of the returned curve
         if has_xerr:
@@ -272,7 +286,7 @@ def check_curve_oracle(case, obs=None):
         if got is None or len(got) != len(want):
             return "second pass received sigma={}".format(got)
         for i, (g, w) in enumerate(zip(got, want)):
-            if abs(g - w) > 1e-6 * abs(w) + 1e-12:
+            if abs(g - w) > 1e-6 * abs(w):
                 return ("effective uncertainty of point {} (x={}, sigma_x={}, sigma_y={}): second pass used {!r}, "
                         "sqrt(sigma_y^2 + (f'(x_i) sigma_x)^2) with the slope at x_i is {!r}".format(i, xs[i], xe[i], ye[i], g, w))
         ss = want
@@ -281,13 +295,13 @@ def check_curve_oracle(case, obs=None):
             return "no x-uncertainties but curve_fit was called {} times".format(len(calls))
         ss = ye if has_yerr else [1.0] * len(xs)
         got = calls[0]["sigma"]
-        if has_yerr and (got is None or any(abs(g - w) > 1e-15 for g, w in zip(got, ye))):
+        if has_yerr and (got is None or any(abs(g - w) > 1e-15 * abs(w) for g, w in zip(got, ye))):
             return "sigma handed to curve_fit is {} but the y-uncertainties are {}".format(got, ye)
         if not has_yerr and got is not None:
             return "no y-uncertainties but sigma={}".format(got)
     # stationarity: gradient of chi2 at the returned parameters
     for k in range(len(params)):
-        h = 1e-5 * max(1.0, abs(params[k]))
+        h = 1e-5 * (abs(params[k]) or 1.0)
 
         def at(t):
             p = list(params)
@@ -302,7 +316,7 @@ def check_curve_oracle(case, obs=None):
                     "sum(((y - f(x; p)) / s)^2) for the {}".format(k, grad, params, scale, fc.describe_model(case)))
     if case.get("noise_free"):
         for k, (g, t) in enumerate(zip(params, case["truth"])):
-            if abs(g - t) > 1e-6 * max(1.0, abs(t)):
+            if abs(g - t) > 1e-6 * abs(t):
                 return "noise-free data generated with {} gave parameter {} = {!r} ({})".format(
                     case["truth"], k, g, fc.describe_model(case))
     # covariance = inverse (J^T W J) at the optimum
@@ -320,7 +334,7 @@ def check_curve_oracle(case, obs=None):
             if abs(obs["errs"][k] - want) > 2e-3 * want:
                 return ("uncertainty of parameter {} is {!r}; sqrt of the diagonal of inverse(J^T W J) at the optimum is {!r}"
                         .format(k, obs["errs"][k], want))
-    return None
+    return late
 
 
 def check_history_oracle(case):
